@@ -6,6 +6,7 @@ import numpy as np
 import common
 import gen
 import refsym
+import replaylib as rl
 
 IMPORTS = ('From SV Require Import Base.Sym Base.Tensor Gen.PhasePerm Model.SymInst Model.Sectors Model.Array Model.Arith Model.Fermi.\n')
 SYMS = ['Z2', 'U1', 'Z2Z2', 'U1U1']
@@ -159,6 +160,9 @@ def run(ctx):
         x = gen.rand_lazy(rng, sr, base, steps=rng.randint(1, 4))
         other = gen.rand_lazy(rng, sr, gen.rand_array(rng, sr, sym, chargemaps=cms, duals=dus, charge=x.charge, cplx=cplx, fermionic=True,
                                                       oddpos=rng.randint(11, 19), lo=-2, hi=2), steps=rng.randint(0, 2))
+        # complete descriptions for the replay files, taken BEFORE any operation runs (an operation that
+        # corrupts its operand through a shared sign table must not leak into the recorded input)
+        x_full, other_full = rl.describe_safe(x), rl.describe_safe(other)
         xs = x.phase_sync()
         ring = gen.ring_of(x, other)
         A = '%s %s' % (sym, ring)
@@ -167,9 +171,11 @@ def run(ctx):
         # sync itself: idempotent, value unchanged, table empty
         ctx.count()
         if xs.phases or not value_eq(x, xs) or not value_eq(xs.phase_sync(), xs):
-            found.append({'op': 'phase_sync', 'symmetry': sym, 'x': describe(x), 'error': 'sync changes the value, is not idempotent or leaves a table'})
+            found.append({'op': 'phase_sync', 'symmetry': sym, 'x': describe(x), 'error': 'sync changes the value, is not idempotent or leaves a table',
+                          'replay': rl.record('sync', {'x': x_full}, {'symmetry': sym})})
         if not np.array_equal(gen.densify(x), gen.densify(xs)) or not np.array_equal(np.asarray(x.to_dense()), gen.densify(x)):
-            found.append({'op': 'to_dense', 'symmetry': sym, 'x': describe(x), 'error': 'dense value changes under synchronisation'})
+            found.append({'op': 'to_dense', 'symmetry': sym, 'x': describe(x), 'error': 'dense value changes under synchronisation',
+                          'replay': rl.record('sync', {'x': x_full}, {'symmetry': sym})})
         exprs.append('farray_eqb_strict %s (f_phase_sync %s %s) %s' % (A, A, gen.gfarray(x, sym, ring), gen.gfarray(xs, sym, ring)))
         meta.append(('phase_sync', sym, k))
         vec = None
@@ -177,6 +183,11 @@ def run(ctx):
             ax = rng.randrange(nd)
             tab = x.indices[ax].chargemap
             vec = (ax, sr.BlockVector({c: gen.rand_data(rng, (d,), False, 1, 3) for c, d in tab.items() if rng.random() < 0.8}))
+        ops_rng = rl.rng_state(rng)     # operations() draws its parameters from rng: from this state a replay draws them again
+
+        def rp_op(name):
+            return rl.record('operation', {'x': x_full, 'other': other_full, 'vec': [] if vec is None else [vec[1]]},
+                             {'symmetry': sym, 'op': name, 'vec_axis': None if vec is None else vec[0], 'rng': ops_rng})
         for name, f in operations(rng, sr, x, other, vec):
             ctx.count()
             opstat[name] = opstat.get(name, 0) + 1
@@ -194,7 +205,8 @@ def run(ctx):
                 raised[name] = raised.get(name, 0) + 1
                 if e1 != e2:
                     found.append({'op': name, 'symmetry': sym, 'x': describe(x), 'other': describe(other),
-                                  'error': 'lazy array: %s, synchronised copy: %s' % (e1 or 'returns', e2 or 'returns')})
+                                  'error': 'lazy array: %s, synchronised copy: %s' % (e1 or 'returns', e2 or 'returns'),
+                                  'replay': rp_op(name)})
                 continue
             # a second step on the result: its dense value through the library (which synchronises)
             # must be its dense value computed here from blocks and pending signs
@@ -203,7 +215,8 @@ def run(ctx):
                     try:
                         if not np.array_equal(np.asarray(rr.to_dense()), gen.densify(rr)):
                             found.append({'op': name + ' then to_dense', 'symmetry': sym, 'x': describe(x), 'other': describe(other),
-                                          'error': 'pending signs of the result are not applied exactly once by to_dense', 'result': describe(rr)})
+                                          'error': 'pending signs of the result are not applied exactly once by to_dense', 'result': describe(rr),
+                                          'replay': rp_op(name)})
                             break
                     except Exception as e:
                         # e.g. every charge pruned away: nothing to densify; raising observes no sign
@@ -212,7 +225,8 @@ def run(ctx):
                 found.append({'op': name, 'symmetry': sym, 'x': describe(x), 'other': describe(other),
                               'error': 'result on the lazy array differs from the result on its synchronised copy',
                               'lazy': describe(r1) if hasattr(r1, 'blocks') else np.asarray(r1).tolist(),
-                              'synced': describe(r2) if hasattr(r2, 'blocks') else np.asarray(r2).tolist()})
+                              'synced': describe(r2) if hasattr(r2, 'blocks') else np.asarray(r2).tolist(),
+                              'replay': rp_op(name)})
         # model correspondence for the phase operations themselves (strict: same table)
         if nd:
             axs = rng.sample(range(nd), rng.randint(1, nd))
@@ -243,6 +257,7 @@ def run(ctx):
             m = x.copy()
             for s in list(m.blocks):
                 m.blocks[s] = np.asarray(m.blocks[s]) + 0.25 * np.arange(1, np.asarray(m.blocks[s]).size + 1).reshape(np.asarray(m.blocks[s]).shape)
+            m_full = rl.describe_safe(m)
             ms = m.phase_sync()
             # outputs built from the lazy input must not share its sign table: synchronising a factor
             # in place must leave the input's value untouched
@@ -257,7 +272,8 @@ def run(ctx):
                 mm = m.sync_charges(); mm.phase_sync(inplace=True)
                 if not np.array_equal(gen.densify(m), before) or not np.allclose(np.asarray(m.to_dense()), before):
                     found.append({'op': 'qr/svd/sync_charges then in-place sign operation on the output', 'symmetry': sym, 'x': describe(m),
-                                  'error': 'the lazy input changed value: its pending signs are shared with an output'})
+                                  'error': 'the lazy input changed value: its pending signs are shared with an output',
+                                  'replay': rl.record('inplace_outputs', {'x': m_full}, {'symmetry': sym})})
             except Exception as e:
                 raised['inplace_on_outputs'] = raised.get('inplace_on_outputs', 0) + 1
             for name, f in linalg_ops(sr, m):
@@ -269,7 +285,8 @@ def run(ctx):
                     raised[name] = raised.get(name, 0) + 1
                     continue
                 if not value_eq(r1, r2, tol=1e-9):
-                    found.append({'op': name, 'symmetry': sym, 'x': describe(m), 'error': 'lazy and synchronised inputs give different results'})
+                    found.append({'op': name, 'symmetry': sym, 'x': describe(m), 'error': 'lazy and synchronised inputs give different results',
+                                  'replay': rl.record('linalg_op', {'x': m_full}, {'symmetry': sym, 'op': name})})
         # stale sign entries: blocks dropped (diagonal vector lacking a charge) while their pending signs remain
         if nd and len(x.blocks) >= 2:
             for ax in range(nd):
@@ -282,11 +299,13 @@ def run(ctx):
                         if not np.array_equal(np.asarray(y.to_dense()), gen.densify(y)):
                             found.append({'op': 'multiply_diagonal (vector lacking a charge) then to_dense', 'symmetry': sym, 'x': describe(x),
                                           'axis': ax, 'missing_charge': miss,
-                                          'error': 'pending signs are not applied exactly once when some signed sectors have no block'})
+                                          'error': 'pending signs are not applied exactly once when some signed sectors have no block',
+                                          'replay': rl.record('stale', {'x': x_full}, {'symmetry': sym, 'axis': ax, 'missing_charge': miss})})
                         y2 = y.phase_sync()
                         if y2.phases or not np.array_equal(gen.densify(y2, phases=False), gen.densify(y)):
                             found.append({'op': 'phase_sync with signed sectors that have no block', 'symmetry': sym, 'x': describe(x),
-                                          'axis': ax, 'missing_charge': miss, 'error': 'synchronising does not empty the table / changes the value'})
+                                          'axis': ax, 'missing_charge': miss, 'error': 'synchronising does not empty the table / changes the value',
+                                          'replay': rl.record('stale', {'x': x_full}, {'symmetry': sym, 'axis': ax, 'missing_charge': miss})})
                     except Exception:
                         raised['stale'] = raised.get('stale', 0) + 1
         if k < 2:
@@ -302,6 +321,7 @@ def run(ctx):
             b = np.asarray(h.blocks[s], dtype='float64')
             h.blocks[s] = b + b.T
         hl = gen.rand_lazy(rng, sr, h, steps=2)
+        hl_full = rl.describe_safe(hl)
         # keep only lazy states whose VALUE is still hermitian block-wise (signs constant per block => yes)
         ctx.count()
         opstat['eigh'] = opstat.get('eigh', 0) + 1
@@ -311,7 +331,8 @@ def run(ctx):
             v1 = np.sort(np.concatenate([np.asarray(b) for b in e1.blocks.values()])) if e1.blocks else np.zeros(0)
             v2 = np.sort(np.concatenate([np.asarray(b) for b in e2.blocks.values()])) if e2.blocks else np.zeros(0)
             if v1.shape != v2.shape or not np.allclose(v1, v2, atol=1e-9):
-                found.append({'op': 'eigh', 'symmetry': sym, 'x': describe(hl), 'lazy_eigenvalues': v1.tolist(), 'synced_eigenvalues': v2.tolist()})
+                found.append({'op': 'eigh', 'symmetry': sym, 'x': describe(hl), 'lazy_eigenvalues': v1.tolist(), 'synced_eigenvalues': v2.tolist(),
+                              'replay': rl.record('eigh', {'x': hl_full}, {'symmetry': sym})})
         except Exception:
             raised['eigh'] = raised.get('eigh', 0) + 1
     bad_idx = common.run_cases(ctx, 'lazy', IMPORTS, '', exprs, shard=60)
@@ -333,10 +354,11 @@ def run(ctx):
         if f['op'] in reported or len(reported) >= 6:
             continue
         reported.add(f['op'])
-        ctx.violation('%s observes the pending signs' % f['op'], {'oracle': 'lazy array vs its synchronised copy', **f})
+        ctx.violation('%s observes the pending signs' % f['op'], {'oracle': 'lazy array vs its synchronised copy', **f, 'run': rl.run_info(ctx)})
     ctx.broken += tie_broken
     if (not ok or tie_broken) and not found:
-        ctx.violation('proof obligation or tie of C09 no longer checks', {'broken': ctx.broken}, found_input=False)
+        ctx.violation('proof obligation or tie of C09 no longer checks',
+                      {'broken': ctx.broken, 'replay': rl.record('proof_phase')}, found_input=False)
     ctx.extra['operations_compared'] = opstat
     ctx.extra['operations_that_raised_on_both'] = raised
     ctx.extra['tie'] = {'model_cases': len(exprs)}
@@ -346,7 +368,167 @@ def run(ctx):
                             '(symmetry, stored sectors, signed sectors, #labels)')
 
 
+# ------------------------------------------------------------------ replay
+def _show(v):
+    return describe(v) if hasattr(v, 'indices') and hasattr(v, 'phases') else (
+        {str(k): np.asarray(b).tolist() for k, b in v.blocks.items()} if hasattr(v, 'blocks') else np.asarray(v).tolist())
+
+
+def _rp_sync(sr, ins, pr, r):
+    x = ins['x']
+    xs = x.phase_sync()
+    fails = []
+    if xs.phases:
+        fails.append({'what': 'phase_sync leaves a pending-sign table', 'expected': {}, 'got': {str(k): v for k, v in xs.phases.items()}})
+    if not value_eq(x, xs):
+        fails.append({'what': 'phase_sync changes the value', 'expected': gen.densify(x).tolist(), 'got': gen.densify(xs).tolist()})
+    if not value_eq(xs.phase_sync(), xs):
+        fails.append({'what': 'phase_sync is not idempotent'})
+    if not np.array_equal(gen.densify(x), gen.densify(xs)):
+        fails.append({'what': 'dense value changes under synchronisation', 'expected': gen.densify(x).tolist(), 'got': gen.densify(xs).tolist()})
+    if not np.array_equal(np.asarray(x.to_dense()), gen.densify(x)):
+        fails.append({'what': 'x.to_dense() is not the blocks with the pending signs applied once', 'expected': gen.densify(x).tolist(),
+                      'got': np.asarray(x.to_dense()).tolist()})
+    return fails
+
+
+def _rp_operation(sr, ins, pr, r):
+    """the recorded operation on the lazy array and on its synchronised copy (parameters drawn again
+    from the recorded generator state)"""
+    x, other = ins['x'], ins['other']
+    vec = (pr['vec_axis'], ins['vec'][0]) if ins.get('vec') else None
+    xs = x.phase_sync()
+    name = pr['op'][:-len(' then to_dense')] if pr['op'].endswith(' then to_dense') else pr['op']
+    ops = operations(rl.rng_from_state(pr['rng']), sr, x, other, vec)
+    if name not in dict(ops):
+        return [{'what': 'operation %r is not offered for this input any more' % name}]
+    # as in the check, the operations before the recorded one run first on both arrays (results unused)
+    for nm, g in ops:
+        if nm == name:
+            break
+        for arg in (x, xs):
+            try:
+                g(arg)
+            except Exception:
+                pass
+    f = dict(ops)[name]
+    try:
+        r1, e1 = f(x), None
+    except Exception as e:
+        r1, e1 = None, type(e).__name__
+    try:
+        r2, e2 = f(xs), None
+    except Exception as e:
+        r2, e2 = None, type(e).__name__
+    if e1 or e2:
+        if e1 != e2:
+            return [{'what': '%s: one of lazy array / synchronised copy raises' % name, 'expected': 'synchronised copy: %s' % (e2 or 'returns'),
+                     'got': 'lazy array: %s' % (e1 or 'returns')}]
+        return []
+    fails = []
+    for rr, which in ((r1, 'lazy array'), (r2, 'synchronised copy')):
+        if hasattr(rr, 'phases') and hasattr(rr, 'indices') and all(ix.subinfo is None for ix in rr.indices):
+            try:
+                if not np.array_equal(np.asarray(rr.to_dense()), gen.densify(rr)):
+                    fails.append({'what': '%s on the %s, then to_dense: pending signs of the result are not applied exactly once' % (name, which),
+                                  'expected': gen.densify(rr).tolist(), 'got': np.asarray(rr.to_dense()).tolist()})
+                    break
+            except Exception:
+                pass
+    if not value_eq(r1, r2):
+        fails.append({'what': '%s: result on the lazy array differs from the result on its synchronised copy' % name,
+                      'expected': _show(r2), 'got': _show(r1)})
+    return fails
+
+
+def _inplace_section(m):
+    import symmray.linalg as la
+    q, rr = la.qr(m)
+    q.phase_sync(inplace=True); rr.phase_sync(inplace=True)
+    u, sv, vh = la.svd(m)
+    u.phase_global(inplace=True); u.phase_sync(inplace=True)
+    mm = m.sync_charges(); mm.phase_sync(inplace=True)
+
+
+def _rp_inplace_outputs(sr, ins, pr, r):
+    m = ins['x']
+    m.phase_sync()          # as in the check: the synchronised copy is made first
+    before = gen.densify(m)
+    try:
+        _inplace_section(m)
+    except Exception:
+        return []
+    if not np.array_equal(gen.densify(m), before) or not np.allclose(np.asarray(m.to_dense()), before):
+        return [{'what': 'qr/svd/sync_charges then an in-place sign operation on the output changes the lazy input',
+                 'expected': before.tolist(), 'got': gen.densify(m).tolist()}]
+    return []
+
+
+def _rp_linalg_op(sr, ins, pr, r):
+    m = ins['x']
+    ms = m.phase_sync()
+    try:                    # as in the check: the in-place operations on the factors come first
+        _inplace_section(m)
+    except Exception:
+        pass
+    ops = linalg_ops(sr, m)
+    for nm, g in ops:       # and the decompositions before the recorded one
+        if nm == pr['op']:
+            break
+        try:
+            g(m), g(ms)
+        except Exception:
+            pass
+    f = dict(ops)[pr['op']]
+    try:
+        r1, r2 = f(m), f(ms)
+    except Exception:
+        return []
+    if not value_eq(r1, r2, tol=1e-9):
+        return [{'what': '%s: lazy and synchronised inputs give different results' % pr['op'], 'expected': _show(r2), 'got': _show(r1)}]
+    return []
+
+
+def _rp_stale(sr, ins, pr, r):
+    x, ax = ins['x'], pr['axis']
+    miss = rl.dec_charge(pr['missing_charge'])
+    tab = x.indices[ax].chargemap
+    v = sr.BlockVector({c: np.ones(d) for c, d in tab.items() if c != miss})
+    fails = []
+    try:
+        y = x.phase_global().multiply_diagonal(v, ax)
+        if not np.array_equal(np.asarray(y.to_dense()), gen.densify(y)):
+            fails.append({'what': 'multiply_diagonal (vector lacking charge %r on axis %d) then to_dense: pending signs not applied exactly once' % (miss, ax),
+                          'expected': gen.densify(y).tolist(), 'got': np.asarray(y.to_dense()).tolist()})
+        y2 = y.phase_sync()
+        if y2.phases or not np.array_equal(gen.densify(y2, phases=False), gen.densify(y)):
+            fails.append({'what': 'phase_sync with signed sectors that have no block: table not emptied / value changed',
+                          'expected': gen.densify(y).tolist(), 'got': gen.densify(y2, phases=False).tolist()})
+    except Exception:
+        pass
+    return fails
+
+
+def _rp_eigh(sr, ins, pr, r):
+    import symmray.linalg as la
+    hl = ins['x']
+    try:
+        e1, _ = la.eigh(hl)
+        e2, _ = la.eigh(hl.phase_sync())
+    except Exception:
+        return []
+    v1 = np.sort(np.concatenate([np.asarray(b) for b in e1.blocks.values()])) if e1.blocks else np.zeros(0)
+    v2 = np.sort(np.concatenate([np.asarray(b) for b in e2.blocks.values()])) if e2.blocks else np.zeros(0)
+    if v1.shape != v2.shape or not np.allclose(v1, v2, atol=1e-9):
+        return [{'what': 'eigh: eigenvalues of the lazy array vs of its synchronised copy', 'expected': v2.tolist(), 'got': v1.tolist()}]
+    return []
+
+
+ORACLES = {'sync': _rp_sync, 'operation': _rp_operation, 'inplace_outputs': _rp_inplace_outputs, 'linalg_op': _rp_linalg_op,
+           'stale': _rp_stale, 'eigh': _rp_eigh}
+
+
 def replay(path):
-    r = json.load(open(path))
-    print(json.dumps(r, indent=1)[:4000])
-    return 0
+    """re-run the recorded failing case against $SYMMRAY_REPO: 1 = still fails, 0 = passes now"""
+    import sys
+    return rl.dispatch(path, 'C09', ORACLES, sys.modules[__name__])
